@@ -4,10 +4,16 @@
 Require Extraction.
 Require Import ExtrOcamlBasic.
 From JQ Require Import Base.Bytes Num.F64 Syntax.Token Syntax.Lexer Syntax.Ast Syntax.Parser.
-From JQ Require Import Gen.Generated.
+From JQ Require Import Json.JValue Json.Decode Json.Encode.
+From JQ Require Import Oracle.Utf8 Oracle.Strings Oracle.Sort Oracle.Slice.
+From JQ Require Oracle.Regex.
+From JQ Require Import Gen.Generated Sem.Value Sem.Natives Sem.Eval Sem.Driver.
 
 Extraction "jqmodel.ml"
-  bs lex_all get_line_col tag_index
+  lex_all get_line_col tag_index
   parse_program parse_expression_src
   parse_float format_f format_json f_of_bits f_bits
-  f_add f_sub f_mul f_div f_neg f_floor f_ceil f_round f_ltb f_eqb f_gtb f_trunc_int64 f_of_Z.
+  f_add f_sub f_mul f_div f_neg f_floor f_ceil f_round f_ltb f_eqb f_gtb f_trunc_int64 f_of_Z
+  decode_next dec_init dec_step marshal_indent marshal_compact
+  Regex.regex_match split to_upper to_lower runes sort_floats grow_cap
+  eval_program get_root_json output_of frame_depth eval_expression_api.
